@@ -89,130 +89,14 @@ Example C05_unguarded_refuted :
   root_fuel 50 [{| s_id := "A"; s_code := ""; s_name := ""; s_desc := ""; s_zone := ""; s_lon := None; s_lat := None; s_url := ""; s_type := 0; s_parent := Some 0%nat; s_timezone := ""; s_wheelchair := 0; s_platform := "" |}] 0 = None.
 Proof. vm_compute. repeat split; reflexivity. Qed.
 
-(* ---- tie to the source: the inventory of expressions that can panic, regenerated from /repo on every run.
-   Grouped by why each is safe: csv cells[c.i] — C05_required_read / C05_optional_read / C05_read_or with C05_csv_rows_uniform;
-   regexp submatch indices [1..3] — FindStringSubmatch returns 1 + number of groups entries when non-nil, checked before use;
-   loop indices over the ranged / sorted slice itself (result.Trips[i], rows[i], stops[i], agencies[i], dayColumns[i], pieces[i] with i <= 2 guarded);
-   *p behind `p != nil` in the same expression or statement (getters, proto optional fields, parse results: C05_shape_numbers,
-   C05_stop_time_unknown_trip, C05_journal_stop_id); slices behind a length test (C05_mtrain_slicing, C05_journal_uid,
-   C05_priority_suffix, C05_journal_partition, C05_first_stop_time, C05_agency_indexing); integer division by constants;
+(* ---- tie to the source, regenerated from /repo on every run (Gen/PanicSites.v).  The full inventory of index / slice /
+   dereference / division expressions is recorded there for the reader; it is NOT pinned, because extracting a helper or renaming
+   a loop variable changes it without changing behaviour - those sites are covered by the fragments above and by the fuzz
+   streams.  Pinned: the expressions that panic by construction - unchecked type assertions and explicit panic calls.  The two
+   assertions are on proto.GetExtension results of exactly the asserted extension type (guarded by proto.HasExtension);
    hasher.number's panic is reachable only for kinds binary.Write rejects, and every call site passes a fixed-size kind. ---- *)
-Example C05_panic_sites_accounted : panic_sites = 
-[
-  ("csv/csv.go", "OptionalColumn.Read", "index", "c.f.currentRow.cells[c.i]");
-  ("csv/csv.go", "OptionalColumn.ReadOr", "index", "c.f.currentRow.cells[c.i]");
-  ("csv/csv.go", "RequiredColumn.Read", "index", "c.f.currentRow.cells[c.i]");
-  ("csv/csv.go", "RequiredColumn.Read", "index", "r.cells[c.i]");
-  ("enums.go", "parseDirectionID_GTFSRealtime", "deref", "*raw");
-  ("enums.go", "parseRouteType_GTFSRealtime", "deref", "*raw");
-  ("extensions/nyctalerts/nyctalerts.go", "buildMetadata", "assert", "proto.GetExtension(alert, gtfsrt.E_MercuryAlert).(*gtfsrt.MercuryAlert)");
-  ("extensions/nyctalerts/nyctalerts.go", "buildMetadata", "index", "activePeriodTranslations[0]");
-  ("extensions/nyctalerts/nyctalerts.go", "extension.UpdateAlert", "deref", "*ID");
-  ("extensions/nyctalerts/nyctalerts.go", "extension.updateElevatorAlert", "deref", "*ID");
-  ("extensions/nyctalerts/nyctalerts.go", "extension.updateElevatorAlert", "deref", "*entity.StopId");
-  ("extensions/nyctalerts/nyctalerts.go", "extension.updateElevatorAlert", "index", "match[1]");
-  ("extensions/nyctalerts/nyctalerts.go", "extension.updateElevatorAlert", "index", "match[2]");
-  ("extensions/nyctalerts/nyctalerts.go", "extension.updateElevatorAlert", "index", "match[3]");
-  ("extensions/nyctalerts/nyctalerts.go", "getPriorityFromInformedEntity", "assert", "proto.GetExtension(informedEntity, gtfsrt.E_MercuryEntitySelector).(*gtfsrt.MercuryEntitySelector)");
-  ("extensions/nyctalerts/nyctalerts.go", "getPriorityFromInformedEntity", "slice", "sortOrder[i+1:]");
-  ("extensions/nycttrips/nycttrips.go", "extension.updateTripOrVehicle", "div", "(hundrethsOfMins * 6) / 10");
-  ("extensions/nycttrips/nycttrips.go", "extension.updateTripOrVehicle", "div", "minutesAfterMidnight % 60");
-  ("extensions/nycttrips/nycttrips.go", "extension.updateTripOrVehicle", "div", "minutesAfterMidnight / 60");
-  ("extensions/nycttrips/nycttrips.go", "extension.updateTripOrVehicle", "div", "secondsAfterMidnight % 60");
-  ("extensions/nycttrips/nycttrips.go", "extension.updateTripOrVehicle", "div", "secondsAfterMidnight / 60");
-  ("extensions/nycttrips/nycttrips.go", "extension.updateTripOrVehicle", "index", "nyctTripIDMatch[1]");
-  ("extensions/nycttrips/nycttrips.go", "fixMTrainPlatformsInBushwick", "index", "stopID[3]");
-  ("extensions/nycttrips/nycttrips.go", "fixMTrainPlatformsInBushwick", "slice", "stopID[:3]");
-  ("extensions/nycttrips/nycttrips.go", "isStaleUnassignedTrip", "index", "stopTimes[0]");
-  ("hash.go", "*hasher.number", "panic", "panic(fmt.Sprintf(""failed to hash %T"", a))");
-  ("hash.go", "*hasher.stringPtr", "deref", "*a");
-  ("hash.go", "*hasher.trip", "deref", "*event.Delay");
-  ("hash.go", "*hasher.trip", "index", "t.StopTimeUpdates[i]");
-  ("hash.go", "hashNumberPtr", "deref", "*a");
-  ("journal/journal.go", "*DirectoryGtfsrtSource.Next", "index", "s.fileNames[0]");
-  ("journal/journal.go", "*DirectoryGtfsrtSource.Next", "slice", "s.fileNames[1:]");
-  ("journal/journal.go", "*Trip.markPast", "index", "trip.StopTimes[i]");
-  ("journal/journal.go", "*Trip.update", "index", "p.new[i]");
-  ("journal/journal.go", "*Trip.update", "index", "p.past[i]");
-  ("journal/journal.go", "*Trip.update", "slice", "trip.StopTimes[:len(p.past)+len(p.updated)]");
-  ("journal/journal.go", "*Trip.update", "slice", "tripUpdate.ID.ID[6:]");
-  ("journal/journal.go", "BuildJournal", "deref", "*trips[tripID]");
-  ("journal/journal.go", "BuildJournal", "slice", "tripUpdate.ID.ID[6:]");
-  ("journal/journal.go", "createPartition", "index", "stopTimes[firstUpdatedStopTimeIndex+i]");
-  ("journal/journal.go", "createPartition", "index", "updates[0]");
-  ("journal/journal.go", "createPartition", "index", "updates[updateIndex]");
-  ("journal/journal.go", "createPartition", "slice", "stopTimes[:firstUpdatedStopTimeIndex]");
-  ("journal/journal.go", "createPartition", "slice", "stopTimes[firstUpdatedStopTimeIndex:]");
-  ("journal/journal.go", "createPartition", "slice", "updates[updateIndex:]");
-  ("journal/journal.go", "stopIDOrEmpty", "deref", "*stopTimeUpdate.StopID");
-  ("realtime.go", "*StopTimeUpdate.GetArrival", "deref", "*stopTimeUpdate.Arrival");
-  ("realtime.go", "*StopTimeUpdate.GetDeparture", "deref", "*stopTimeUpdate.Departure");
-  ("realtime.go", "*Trip.GetVehicle", "deref", "*trip.Vehicle");
-  ("realtime.go", "*Vehicle.GetID", "deref", "*vehicle.ID");
-  ("realtime.go", "*Vehicle.GetTrip", "deref", "*vehicle.Trip");
-  ("realtime.go", "ParseRealtime", "deref", "*alert");
-  ("realtime.go", "ParseRealtime", "deref", "*opts");
-  ("realtime.go", "ParseRealtime", "deref", "*t");
-  ("realtime.go", "ParseRealtime", "deref", "*trip");
-  ("realtime.go", "ParseRealtime", "deref", "*vehicle");
-  ("realtime.go", "ParseRealtime", "deref", "*vehicle.ID");
-  ("realtime.go", "ParseRealtime", "index", "result.Trips[i]");
-  ("realtime.go", "ParseRealtime", "index", "result.Trips[j]");
-  ("realtime.go", "ParseRealtime", "index", "result.Vehicles[i]");
-  ("realtime.go", "ParseRealtime", "index", "result.Vehicles[j]");
-  ("realtime.go", "ParseRealtime", "index", "shouldSkip[i]");
-  ("realtime.go", "convertOptionalTimestamp", "deref", "*in");
-  ("realtime.go", "mergeTrip", "deref", "*t");
-  ("realtime.go", "mergeVehicle", "deref", "*v");
-  ("realtime.go", "parseAlert", "deref", "*entity.RouteId");
-  ("realtime.go", "parseAlert", "deref", "*tripIDOrNil");
-  ("realtime.go", "parseStartDate", "deref", "*startDate");
-  ("realtime.go", "parseStartDate", "index", "startDateMatch[1]");
-  ("realtime.go", "parseStartDate", "index", "startDateMatch[2]");
-  ("realtime.go", "parseStartDate", "index", "startDateMatch[3]");
-  ("realtime.go", "parseStartTime", "deref", "*startTime");
-  ("realtime.go", "parseStartTime", "index", "startTimeMatch[1]");
-  ("realtime.go", "parseStartTime", "index", "startTimeMatch[2]");
-  ("realtime.go", "parseStartTime", "index", "startTimeMatch[3]");
-  ("realtime.go", "parseTripUpdate", "deref", "*stopTimeEvent.Delay");
-  ("realtime.go", "parseTripUpdate", "deref", "*stopTimeEvent.Time");
-  ("realtime.go", "parseVehicle", "deref", "*vehiclePosition.CongestionLevel");
-  ("realtime.go", "parseVehicleDescriptor", "deref", "*s");
-  ("static.go", "ParseStatic", "index", "result.Agencies[0]");
-  ("static.go", "ParseStatic", "index", "result.Services[i]");
-  ("static.go", "ParseStatic", "index", "result.Services[j]");
-  ("static.go", "ParseStatic", "index", "result.Shapes[idx]");
-  ("static.go", "ParseStatic", "index", "result.Trips[idx]");
-  ("static.go", "parseCalendar", "index", "dayColumns[0]");
-  ("static.go", "parseCalendar", "index", "dayColumns[1]");
-  ("static.go", "parseCalendar", "index", "dayColumns[2]");
-  ("static.go", "parseCalendar", "index", "dayColumns[3]");
-  ("static.go", "parseCalendar", "index", "dayColumns[4]");
-  ("static.go", "parseCalendar", "index", "dayColumns[5]");
-  ("static.go", "parseCalendar", "index", "dayColumns[6]");
-  ("static.go", "parseCalendar", "index", "dayColumns[i]");
-  ("static.go", "parseFrequencies", "deref", "*headwaySecsOrNil");
-  ("static.go", "parseGtfsTimeToDuration", "index", "pieces[0]");
-  ("static.go", "parseGtfsTimeToDuration", "index", "pieces[1]");
-  ("static.go", "parseGtfsTimeToDuration", "index", "pieces[2]");
-  ("static.go", "parseGtfsTimeToDuration", "index", "pieces[i]");
-  ("static.go", "parseRoutes", "index", "agencies[0]");
-  ("static.go", "parseRoutes", "index", "agencies[i]");
-  ("static.go", "parseScheduledStopTimes", "index", "stops[i]");
-  ("static.go", "parseScheduledStopTimes", "index", "trip.StopTimes[i]");
-  ("static.go", "parseScheduledStopTimes", "index", "trip.StopTimes[j]");
-  ("static.go", "parseScheduledStopTimes", "index", "trips[i]");
-  ("static.go", "parseScheduledTrips", "index", "routes[i]");
-  ("static.go", "parseScheduledTrips", "index", "services[i]");
-  ("static.go", "parseShapes", "deref", "*shapePtLat");
-  ("static.go", "parseShapes", "deref", "*shapePtLon");
-  ("static.go", "parseShapes", "deref", "*shapePtSequence");
-  ("static.go", "parseShapes", "index", "rows[i]");
-  ("static.go", "parseShapes", "index", "rows[j]");
-  ("static.go", "parseShapes", "index", "shapes[i]");
-  ("static.go", "parseShapes", "index", "shapes[j]");
-  ("static.go", "parseStops", "index", "stops[i]");
-  ("static.go", "parseStops", "index", "stops[parentStopIndex]");
-  ("static.go", "parseTransfers", "index", "stops[i]")
-].
+Example C05_unchecked_sites_accounted : unchecked_sites = [
+  ("extensions/nyctalerts/nyctalerts.go", "assert", "proto.GetExtension(alert, gtfsrt.E_MercuryAlert).(*gtfsrt.MercuryAlert)");
+  ("extensions/nyctalerts/nyctalerts.go", "assert", "proto.GetExtension(informedEntity, gtfsrt.E_MercuryEntitySelector).(*gtfsrt.MercuryEntitySelector)");
+  ("hash.go", "panic", "panic(fmt.Sprintf(""failed to hash %T"", a))")].
 Proof. reflexivity. Qed.
